@@ -1,2 +1,180 @@
-(* C04 -- theorems land here *)
-Require Import XV.Differ XV.Spec.
+(* C04 -- every action addresses exactly one existing node, with resolvable
+   prefixes (path half); the shipped patcher resolves those paths to the
+   intended nodes and then performs the documented action (patcher half, shared
+   with C01/C05).
+
+   Models: XV.Path (XPath subset; getpath = libxml2's xmlGetNodePath + the forced
+   index of utils.getpath), XV.PatcherDSL + XV.Gen.PatcherProg (the handler
+   programs GENERATED from xmldiff/patch.py), XV.Spec (documented semantics),
+   XV.Render (identity-level action -> the namedtuple the differ yields).
+   Proofs: XV.PathProofs, XV.PatcherProofs.
+
+   Hypotheses, in plain words:
+   - wf_forest f root (XV.WF): the document is a finite tree, tidy ids;
+   - env_agrees pe env f root: each prefix that the prefix policy pe prints for
+     the namespace URI of a document element is bound to that URI in env (the
+     namespaces= mapping); URIs with pe u = None are the default namespace and
+     are printed as "*";
+   - names_ok pe f root: the local names and prefixes getpath prints are
+     non-empty and free of the characters / [ ] : * ( )  (true of XML NCNames);
+   - ns_named a: an InsertNamespace action carries a prefix.  InsertNamespace
+     with prefix None (default namespace) makes the shipped handler fail
+     (nsmap[None]); it is excluded explicitly;
+   - script_ok pe root env f script: env_agrees, names_ok and ns_named hold
+     before every action of the script, in the tree reached by the documented
+     semantics and the environment extended by the InsertNamespace actions so
+     far (env_after).  Checkable by computation: script_okb_sound.
+   Conclusions use forest_ext_eq (same fnext, pointwise equal child lists and
+   labels); no functional extensionality anywhere. *)
+From Coq Require Import List NArith ZArith Bool Arith.
+Import ListNotations.
+Require Import XV.Str XV.Json XV.TextFormat XV.Forest XV.Matcher XV.Differ XV.Spec XV.WF
+               XV.Path XV.PatcherDSL XV.Render XV.Gen.TextTables XV.Gen.PatcherProg
+               XV.PathProofs XV.PatcherProofs.
+
+Theorem C04_getpath_unique :
+  forall (pe : penv) (env : nsenv) (f : forest) (root n : id),
+  wf_forest f root -> In n (doc_nodes f root) -> env_agrees pe env f root ->
+  eval_all env f root (getpath pe f root n) = Some [n] /\
+  last_indexed (getpath pe f root n) = true.
+Proof. exact getpath_unique. Qed.
+Print Assumptions C04_getpath_unique.
+
+Theorem C04_path_roundtrip :
+  forall (pe : penv) (f : forest) (root n : id),
+  wf_forest f root -> In n (doc_nodes f root) -> names_ok pe f root ->
+  path_of_str (path_to_str (getpath pe f root n)) = Some (getpath pe f root n).
+Proof. exact path_roundtrip. Qed.
+Print Assumptions C04_path_roundtrip.
+
+(* <r xmlns:p="up" ><p:a/><b xmlns="ud"/><c/><c><!--x--></c></r>, ids in document
+   order: a prefixed element, a default-namespace element, two same-named
+   siblings, a comment.  The hypotheses hold, every getpath selects its node,
+   and the strings are the ones lxml prints. *)
+Example C04_example :
+  let f := mk_forest [(0, [1; 2; 3; 4]); (4, [5])]
+            [(0, Lab (TElem [114%N]) [] None None);
+             (1, Lab (TElem (clark [117;112]%N [97%N])) [] None None);
+             (2, Lab (TElem (clark [117;100]%N [98%N])) [] None None);
+             (3, Lab (TElem [99%N]) [] None None);
+             (4, Lab (TElem [99%N]) [] None None);
+             (5, Lab TComment [] (Some [120%N]) None)] 6 in
+  let pe : penv := fun u => if str_eqb u [117;112]%N then Some [112%N] else None in
+  let env : nsenv := [([112%N], [117;112]%N)] in
+  wf_forest f 0 /\ env_agrees pe env f 0 /\ names_ok pe f 0 /\
+  doc_nodes f 0 = [0; 1; 2; 3; 4; 5] /\
+  map (fun n => eval_all env f 0 (getpath pe f 0 n)) [0; 1; 2; 3; 4; 5]
+  = [Some [0]; Some [1]; Some [2]; Some [3]; Some [4]; Some [5]] /\
+  map (fun n => path_to_str (getpath pe f 0 n)) [0; 1; 2; 3; 4; 5]
+  = [ [47; 114; 91; 49; 93];                                   (* /r[1]     *)
+      [47; 114; 47; 112; 58; 97; 91; 49; 93];                  (* /r/p:a[1] *)
+      [47; 114; 47; 42; 91; 50; 93];                           (* /r/*[2]   *)
+      [47; 114; 47; 99; 91; 49; 93];                           (* /r/c[1]   *)
+      [47; 114; 47; 99; 91; 50; 93];                           (* /r/c[2]   *)
+      [47; 114; 47; 99; 91; 50; 93; 47; 99; 111; 109; 109; 101; 110; 116; 40; 41; 91; 49; 93]
+                                                               (* /r/c[2]/comment()[1] *)
+    ]%N.
+Proof.
+  cbv zeta.
+  split; [apply wf_forestb_sound; vm_compute; reflexivity|].
+  split; [apply env_agreesb_iff; vm_compute; reflexivity|].
+  split; [apply names_okb_iff; vm_compute; reflexivity|].
+  split; [vm_compute; reflexivity|].
+  split; vm_compute; reflexivity.
+Qed.
+Print Assumptions C04_example.
+
+(* ---------------------------------------------------------------------- *)
+(* The patcher.  The handler programs are GENERATED from xmldiff/patch.py on
+   every run; this equation is the obligation that breaks when a handler is
+   edited.  (With PDetach before the second PResolve in MoveNode, or with
+   with_ns = false, it fails -- and C04_patcher_refines_spec would be false:
+   IndexError resp. XPathEvalError on actions the documentation accepts.) *)
+Theorem C04_patcher_progs_expected :
+  patcher_progs =
+  [ (n_DeleteNode, [PResolve 0 fn_node true; PDetach 0]);
+    (n_InsertNode, [PResolve 0 fn_target true; PMakeElement 1 0 fn_tag; PInsertAt 0 fn_position 1]);
+    (n_RenameNode, [PResolve 0 fn_node true; PSetTag 0 fn_tag]);
+    (n_MoveNode, [PResolve 0 fn_node true; PResolve 1 fn_target true; PDetach 0; PInsertAt 1 fn_position 0]);
+    (n_UpdateTextIn, [PResolve 0 fn_node true; PSetText 0 fn_text]);
+    (n_UpdateTextAfter, [PResolve 0 fn_node true; PSetTail 0 fn_text]);
+    (n_UpdateAttrib, [PResolve 0 fn_node true; PAssertHas 0 fn_name; PSetAttr 0 fn_name fn_value]);
+    (n_DeleteAttrib, [PResolve 0 fn_node true; PDelAttr 0 fn_name]);
+    (n_InsertAttrib, [PResolve 0 fn_node true; PAssertLacks 0 fn_name; PSetAttr 0 fn_name fn_value]);
+    (n_RenameAttrib, [PResolve 0 fn_node true; PAssertHas 0 fn_oldname; PAssertLacks 0 fn_newname;
+                      PCopyAttr 0 fn_newname fn_oldname; PDelAttr 0 fn_oldname]);
+    (n_InsertComment, [PResolve 0 fn_target true; PMakeComment 1 fn_text; PInsertAt 0 fn_position 1]);
+    (n_InsertNamespace, [PBindPrefix fn_prefix fn_uri]);
+    (n_DeleteNamespace, [PNop]) ].
+Proof. exact patcher_progs_expected. Qed.
+Print Assumptions C04_patcher_progs_expected.
+
+(* One action: the handler, run on the action as the differ renders it, resolves
+   every path to the intended node and performs the documented action -- with
+   assert statements enabled (b = true) or stripped (b = false). *)
+Theorem C04_patcher_refines_spec :
+  forall (pe : penv) (env : nsenv) (f : forest) (root : id) (vars : var -> option id) (b : bool)
+         (ia : iact) (f' : forest),
+  wf_forest f root -> env_agrees pe env f root -> names_ok pe f root -> ns_named ia ->
+  spec_apply root f ia = Some f' ->
+  exists s', handle_action actions_sig b root patcher_progs (PS f env vars) (render pe root f ia) = POk s'
+             /\ forest_ext_eq (ps_f s') f'
+             /\ ps_env s' = env_after ia env.
+Proof. exact patcher_refines_spec. Qed.
+Print Assumptions C04_patcher_refines_spec.
+
+(* python -O: on documented-applicable actions the asserts never fire, so
+   stripping them changes nothing *)
+Theorem C04_asserts_unreachable :
+  forall (pe : penv) (env : nsenv) (f : forest) (root : id) (vars : var -> option id)
+         (ia : iact) (f' : forest),
+  wf_forest f root -> env_agrees pe env f root -> names_ok pe f root -> ns_named ia ->
+  spec_apply root f ia = Some f' ->
+  handle_action actions_sig false root patcher_progs (PS f env vars) (render pe root f ia)
+  = handle_action actions_sig true root patcher_progs (PS f env vars) (render pe root f ia).
+Proof. exact patcher_asserts_unreachable. Qed.
+Print Assumptions C04_asserts_unreachable.
+
+(* A whole script: Patcher.patch (nsmap = the root's prefixed namespaces) on the
+   rendered script yields the tree of the documented semantics. *)
+Theorem C04_patch_replays_script :
+  forall (pe : penv) (root : id) (L : forest) (root_nsmap : list (option str * str))
+         (script : list iact) (T : forest) (gs : list gaction),
+  wf_forest L root ->
+  run_spec root L script = Some T ->
+  render_script pe root L script = Some gs ->
+  script_ok pe root (nsmap_env root_nsmap) L script ->
+  exists T', patch actions_sig true root patcher_progs L root_nsmap gs = POk T' /\ forest_ext_eq T' T.
+Proof. exact patch_replays_script. Qed.
+Print Assumptions C04_patch_replays_script.
+
+(* script_ok is satisfiable: on the forest of C04_example, bind a new prefix,
+   rename into the new namespace, move, insert, attribute actions, delete *)
+Example C04_example_script :
+  let f := mk_forest [(0, [1; 2; 3; 4]); (4, [5])]
+            [(0, Lab (TElem [114%N]) [] None None);
+             (1, Lab (TElem (clark [117;112]%N [97%N])) [] None None);
+             (2, Lab (TElem (clark [117;100]%N [98%N])) [] None None);
+             (3, Lab (TElem [99%N]) [] None None);
+             (4, Lab (TElem [99%N]) [] None None);
+             (5, Lab TComment [] (Some [120%N]) None)] 6 in
+  let pe : penv := fun u => if str_eqb u [117;112]%N then Some [112%N]
+                            else if str_eqb u [117;113]%N then Some [113%N] else None in
+  let nsm : list (option str * str) := [(Some [112%N], [117;112]%N); (None, [117;100]%N)] in
+  let script := [IInsNs (Some [113%N]) [117;113]%N; IRename 3 (clark [117;113]%N [122%N]);
+                 IMove 1 4 0; IInsert 3 [119%N] 0 6; IInsAttr 6 [1%N] [5%N];
+                 IRenAttr 6 [1%N] [2%N]; IMove 3 4 2; IDelete 2] in
+  script_ok pe 0 (nsmap_env nsm) f script /\
+  match run_spec 0 f script, render_script pe 0 f script with
+  | Some T, Some gs =>
+      match patch actions_sig true 0 patcher_progs f nsm gs with
+      | POk T' => doc_tree T' 0 = doc_tree T 0
+      | PErr _ => False
+      end
+  | _, _ => False
+  end.
+Proof.
+  cbv zeta. split; [apply script_okb_sound; vm_compute; reflexivity|].
+  vm_compute. reflexivity.
+Qed.
+Print Assumptions C04_example_script.
